@@ -249,7 +249,7 @@ def now() -> float:
 
 
 def short_tb(limit=6) -> str:
-    return "".join(traceback.format_exc(limit=limit))[-1500:]
+    return "".join(traceback.format_exc(limit=-abs(limit)))[-1500:]  # the innermost frames
 
 
 def exc_in_library() -> bool:
